@@ -3,9 +3,9 @@
    the refutation of the pinned sampler).  "fcp v s a b" is the vector index' forkless-cause answer;
    its equality with the graph definition (spec/FcSpec.v fc_spec) is C05 (worker vecidx) and is NOT
    assumed here: every statement below is about the index' own answers. *)
-From Coq Require Import NArith List.
+From Coq Require Import NArith List Bool.
 From LV Require Import model.VecIndex spec.FcSpec model.Abft model.AbftRun
-  proofs.VecInv proofs.VecStep proofs.AbftRunInv proofs.AbftInv proofs.AbftInvStep proofs.AbftGraph
+  proofs.VecInv proofs.VecStep proofs.AbftCount proofs.AbftFuel proofs.AbftRunInv proofs.AbftInv proofs.AbftInvStep proofs.AbftGraph
   proofs.AbftIds proofs.AbftFrame proofs.AbftBuild proofs.AbftWitness proofs.AbftOld.
 Import ListNotations.
 Local Open Scope N_scope.
@@ -79,6 +79,16 @@ Proof. exact built_then_processed. Qed.
    application guard are well-formed for the index ([wf_new], the eventcheck facts: hypothesis of C05).
    quorum_graph i E a g = "the validators owning an accepted event that is a root slot of frame g and
    forkless-causes a (fc_spec on E) hold a quorum"; allowed_graph = the frame rule over it. *)
+(* audit-F issue 9: the quorum test of forklessCausedByQuorumOn (counter, early break, validator index) IS
+   "quorum <= total weight of the distinct validators owning a root of the frame that forkless-causes a" *)
+Theorem C04_quorum_is_weight_of_validators : forall v, NoDup (v_ids v) -> forall s roots a g,
+  (forall r, In r roots -> v_exists v (r_val r) = true) ->
+  qp v s roots a g =
+  (v_quorum v <=? vsum v (fun id => existsb (fun r => (r_val r =? id) && fcp v s a (r_id r)) (roots_of roots g))).
+Proof. exact qp_is_weight. Qed.
+Theorem C04_build_never_out_of_fuel : forall cap smp es st e, fst (build_with cap smp es st e) <> Err EFuel.
+Proof. intros cap. exact (build_never_out_of_fuel cap (fun _ _ _ _ _ => None)). Qed.
+
 Theorem C04_process_iff_allowed_graph : forall cap eb i e, J i -> guard i e true = None ->
   wf_new (length (l_vals (i_st i))) (l_idx (i_st i)) (vev (l_vals (i_st i)) e) ->
   exists s', add (l_idx (i_st i)) (vev (l_vals (i_st i)) e) = Some s' /\
@@ -133,6 +143,8 @@ Print Assumptions C04_frame_fuel_enough.
 Print Assumptions C04_build_highest.
 Print Assumptions C04_build_any_history.
 Print Assumptions C04_built_then_processed.
+Print Assumptions C04_quorum_is_weight_of_validators.
+Print Assumptions C04_build_never_out_of_fuel.
 Print Assumptions C04_process_iff_allowed_graph.
 Print Assumptions C04_build_highest_graph.
 Print Assumptions C04_J_on_every_run.
